@@ -65,6 +65,7 @@ func (h *History) Add(form Form) {
 	if h.max <= len(h.forms) {
 		h.forms = h.forms[len(h.forms)-h.limit:]
 		tmp := fmt.Sprintf("%s.tmp", h.filename)
+		verifCrash("history.compact.open")
 		f, err := os.OpenFile(tmp, os.O_TRUNC|os.O_CREATE|os.O_WRONLY, 0644)
 		if err != nil {
 			panic(err)
@@ -73,18 +74,23 @@ func (h *History) Add(form Form) {
 		for _, frm := range h.forms {
 			// Write each line separately to avoid excessive memory use if the
 			// history is long.
+			verifCrash("history.compact.write")
 			if _, err = f.Write(frm.TabAppend(nil)); err != nil {
 				panic(err)
 			}
 		}
+		verifCrash("history.compact.close")
 		_ = f.Close()
+		verifCrash("history.compact.rename")
 		if err := os.Rename(tmp, h.filename); err != nil {
 			panic(err)
 		}
 	} else {
+		verifCrash("history.append.open")
 		f, err := os.OpenFile(h.filename, os.O_APPEND|os.O_CREATE|os.O_WRONLY, 0644)
 		defer func() { _ = f.Close() }()
 		if err == nil {
+			verifCrash("history.append.write")
 			_, err = f.Write(form.TabAppend(nil))
 		}
 		if err != nil {
@@ -96,12 +102,14 @@ func (h *History) Add(form Form) {
 // Clear the stash entries in the range specified..
 func (h *History) Clear(start, end int) {
 	h.clear(start, end)
+	verifCrash("history.clear.open")
 	f, err := os.OpenFile(h.filename, os.O_TRUNC|os.O_APPEND|os.O_CREATE|os.O_WRONLY, 0644)
 	if err != nil {
 		panic(err)
 	}
 	defer func() { _ = f.Close() }()
 	for _, frm := range h.forms {
+		verifCrash("history.clear.write")
 		if _, err = f.Write(frm.TabAppend(nil)); err != nil {
 			panic(err)
 		}
